@@ -232,6 +232,8 @@ class Executor:
 
 def _break(value, sel: int, kind: int, depth: int):
     fields = dataclasses.fields(value)
+    if not fields:  # some entities have no fields at all (e.g. ApiVersionsRequest v0): nothing to break
+        return value
     f = fields[sel % len(fields)]
     v = getattr(value, f.name)
     descend = (sel // 5) % 3 != 0 and depth < 4
